@@ -42,4 +42,9 @@ def close(a, b, rtol=1e-9, atol=1e-12):
 def tok_num(fr):
     """Fraction -> input token understood by both drivers (int or p/q)"""
     fr = Fraction(fr)
+    if fr.denominator.bit_length() > 60 or abs(fr.numerator).bit_length() > 60:
+        # beyond the drivers' native integers: exact hex-float token (both drivers read hex floats exactly)
+        f = float(fr)
+        if Fraction(f) != fr: raise ValueError("value %s is neither a small fraction nor a double" % fr)
+        return f.hex()
     return str(fr.numerator) if fr.denominator == 1 else "%d/%d" % (fr.numerator, fr.denominator)
